@@ -101,7 +101,9 @@ def generate(rng, tier):
             "reprep": rng.pick([None, None, "same", "larger", "smaller"]),
             "cvr_sample": rng.sample(range(n_list), rng.randint(0, min(n_list, 12))) if n_list and not huge else [],
             # the CVR's position field is the exporter's business: the card's number, nothing, or a 0-based rank
-            "card_in_batch": rng.pick(["pos", "pos", "none", "rank0"])}
+            "card_in_batch": rng.pick(["pos", "pos", "none", "rank0"]),
+            # a spreadsheet read with dtype=str hands the tabulator / batch labels over as text, not numbers
+            "labels": rng.pick(["int", "int", "str"])}
 
 
 def raw_manifest(case):
@@ -112,6 +114,9 @@ def raw_manifest(case):
     else:
         df = pd.DataFrame([{"Container": f"box{1 + i // 2}", "Tabulator": int(b["tab"]), "Batch Name": int(b["batch"]),
                             "Number of Ballots": int(b["n"])} for i, b in enumerate(case["batches"])])
+    if case.get("labels") == "str":
+        for c in (["Tabulator Number", "Batch Number"] if case["vendor"] == "dominion" else ["Tabulator", "Batch Name"]):
+            df[c] = df[c].astype(str)
     if case.get("index") is not None and len(case["index"]) == len(df):
         df.index = list(case["index"])
     return df
